@@ -522,13 +522,15 @@ func (t *tOps) remove(fd storage.FileDesc) {
 		} else {
 			t.s.logf("table@remove removed @%d", fd.Num)
 		}
-		if t.evictRemoved && t.blockCache != nil {
+		// Try to reuse file num, useful for discarded transaction. The number
+		// may name another table as soon as it is given back, so the cached
+		// blocks of this table must be gone before that, not after.
+		reusable := t.s.nextFileNum() == fd.Num+1
+		if t.blockCache != nil && (t.evictRemoved || reusable) {
 			t.blockCache.EvictNS(uint64(fd.Num))
 		}
-		// Try to reuse file num, useful for discarded transaction.
-		if t.s.reuseFileNum(fd.Num) && !t.evictRemoved && t.blockCache != nil {
-			// The number will name another table, its cached blocks must go.
-			t.blockCache.EvictNS(uint64(fd.Num))
+		if reusable {
+			t.s.reuseFileNum(fd.Num)
 		}
 	})
 }
